@@ -248,6 +248,54 @@ class Reference:
             e += self.doc_items(nsn, r.doc, 'route-doc')
             self.edges[('r', nsn, name, ver)] = e
 
+    def context_variants(self):
+        """The documented meaning reads the doc of a member in the namespace that declares it. Two variants for
+        attributing a failure to the known defect "an inherited member's doc is read in the namespace of a child":
+        `alt` = extra edges from a type to what the docs of its foreign ancestors' members denote when read in the
+        type's own namespace; `fragile` = the (holder, item) doc edges of members that have a foreign descendant and
+        mention something without a namespace (the real walk may read them elsewhere)."""
+        if getattr(self, '_variants', None) is not None:
+            return self._variants
+        alt = {}
+        fragile = set()
+        for (nsn, name), d in self.types.items():
+            p = d.parent_type
+            while p is not None:
+                if p.namespace.name != nsn:
+                    saved = self.unresolved
+                    self.unresolved = []
+                    for f in p.fields:
+                        child = self.doc_items(nsn, f.doc, 'field-doc')
+                        own = self.doc_items(p.namespace.name, f.doc, 'field-doc')
+                        child_items = {it for _k, it in child}
+                        own_items = {it for _k, it in own}
+                        for kind, it in child:
+                            if it not in own_items:
+                                alt.setdefault(('t', nsn, name), []).append((kind, it))
+                        for kind, it in own:
+                            if it not in child_items:
+                                fragile.add((('t', p.namespace.name, p.name), it))
+                    self.unresolved = saved
+                p = p.parent_type
+        self._variants = (alt, fragile)
+        return self._variants
+
+    def closure_variant(self, seed_items, extra=None, without=None):
+        seen, work = set(), []
+        for _k, it in seed_items:
+            if it not in seen:
+                seen.add(it)
+                work.append(it)
+        while work:
+            x = work.pop()
+            for kind, y in list(self.edges.get(x, ())) + list((extra or {}).get(x, ())):
+                if without and (x, y) in without and kind.endswith('@field-doc'):
+                    continue
+                if y not in seen:
+                    seen.add(y)
+                    work.append(y)
+        return seen
+
     def seeds(self, wl):
         """[(kind, item)]: whitelisted routes ("*" = all of the namespace) and data types, and what the docs of
         the namespaces named in the whitelist mention. None when the whitelist names something unknown."""
@@ -607,6 +655,8 @@ def judge_filter(env, wl, real):
     #    a failure is an edge from a reached, retained holder to an item that is not retained (the frontier only:
     #    items missing merely because their holder is missing are consequences, not reported)
     wl_routes = {it for kind, it in sd if kind == 'whitelisted-route'}
+    alt_edges, fragile = ref.context_variants()
+    closure_alt = ref.closure_variant(sd, extra=alt_edges) if alt_edges else set(why)
 
     def kept(x):
         return x in types if x[0] == 't' else (x in routes if x[0] == 'r' else x in aliases)
@@ -639,6 +689,9 @@ def judge_filter(env, wl, real):
         sig = {'kind': 'not-closed', 'edge': edge, 'holder': hc, 'missing': 'route' if m[0] == 'r' else 'type'}
         if where:
             sig['where'] = where
+        if where == 'field-doc' and (holder, m) in fragile:
+            # mentioned by the doc of a member that a descendant in another namespace inherits (and reads differently)
+            sig['cause'] = 'inherited-member-doc-read-in-child-namespace'
         key = json.dumps(sig, sort_keys=True)
         if key in seen_sigs:
             continue
@@ -651,12 +704,18 @@ def judge_filter(env, wl, real):
     # 3. minimal: no data type outside the closure
     extra = sorted(types - want_types)
     if extra:
+        sig = {'kind': 'outside-closure', 'item': 'type'}
+        if all(x in closure_alt for x in extra):
+            sig['cause'] = 'inherited-member-doc-read-in-child-namespace'
         problems.append(('a data type outside the dependency closure of the whitelist is retained',
-                         {'kind': 'outside-closure', 'item': 'type'}, {'extra': [ref.label(x) for x in extra][:8]}))
+                         sig, {'extra': [ref.label(x) for x in extra][:8]}))
     extra_r = sorted(routes - want_routes)
     if extra_r:
+        sig = {'kind': 'outside-closure', 'item': 'route'}
+        if all(x in closure_alt for x in extra_r):
+            sig['cause'] = 'inherited-member-doc-read-in-child-namespace'
         problems.append(('a route outside the dependency closure of the whitelist is retained',
-                         {'kind': 'outside-closure', 'item': 'route'}, {'extra': [ref.label(x) for x in extra_r][:8]}))
+                         sig, {'extra': [ref.label(x) for x in extra_r][:8]}))
     # 4. no dangling reference inside the filtered Api
     seen_kinds = set()
     for where, holder, target in dangling_scan(fapi):
